@@ -150,14 +150,16 @@ Definition validate_scalar (f : limits -> Z) (known : bool) (g : group) (chain :
     | Some a => negb (new >? f (lim (snd a)) - (resv f (snd a) - reserved))
     end.
 
-(* the parent loop of validateCPUResourceFit *)
+(* the parent loop of validateCPUResourceFit (as repaired in /repo commit 731c638: an ancestor that has a cpu set but no
+   cpu quota bounds the request by the size of its set and the walk goes on to the ancestors above it; the walk ends
+   at the first ancestor that has a cpu quota) *)
 Fixpoint cpu_parents (ncpu : Z) (chain : list anc) (req existing : Z) : bool :=
   match chain with
   | [] => true
   | (ainh, a) :: rest =>
       let al := cpu_alloc ncpu ainh (lim a) in
       if negb (al =? 0) then negb (req >? al - (cpu_resv ncpu ainh a - existing))
-      else if negb (nilb (l_set (lim a))) then negb (req >? zlen (l_set (lim a)) * 100)
+      else if negb (nilb (l_set (lim a))) && (req >? zlen (l_set (lim a)) * 100) then false
       else cpu_parents ncpu rest req existing
   end.
 
